@@ -49,7 +49,7 @@ InitState(i, hs, sl) ==
            hs2 == [h \in DOMAIN hs |-> IF h \in DOMAIN r.gens
                                         THEN Append(hs[h], IF KeepSnap THEN r.gens[h] ELSE [r.gens[h] EXCEPT !.snap = <<>>])
                                         ELSE hs[h]]
-       IN InitState(i + 1, hs2, SealedNext(sl, InitDisk, DOMAIN r.gens, InitOp(i), r.exit, hs2))
+       IN InitState(i + 1, hs2, SealedNext(sl, InitDisk, DOMAIN r.gens, InitOp(i), r.exit, hs2, {p \in DOMAIN InitDisk : Below(InitCreates[i], p) /\ Ign(InitCreates[i], p, r.eff)}))
 Init ==
   /\ disk = InitDisk
   /\ LET st == InitState(1, [h \in CmdRoots |-> <<>>], <<>>) IN hist = st.hist /\ sealed = st.sealed
@@ -113,7 +113,7 @@ Create(R, F, nodh, dr, P) ==
   /\ LET r == TLCEval(CreateResult(hist, disk, R, F, nodh, dr, P))
          o == [op |-> "create", R |-> R, F |-> F, n |-> nodh, dr |-> dr, P |-> P]
      IN /\ hist' = IF r.abort THEN hist ELSE Commit(r)
-        /\ sealed' = SealedNext(sealed, disk, IF r.abort THEN {} ELSE DOMAIN r.gens, o, r.exit, IF r.abort THEN hist ELSE Commit(r))
+        /\ sealed' = SealedNext(sealed, disk, IF r.abort THEN {} ELSE DOMAIN r.gens, o, r.exit, IF r.abort THEN hist ELSE Commit(r), IgnSet(R, r.eff))
         /\ Observe(o, [exit |-> r.exit, internal |-> r.abort, missing |-> r.missing,
                        mismatch |-> r.mismatch, new |-> {}, eff |-> r.eff], IgnSet(R, r.eff))
         /\ Log(o)
@@ -125,7 +125,7 @@ CreateSF(R, F, S) ==
   /\ LET r == TLCEval(CreateSFResult(hist, disk, R, F, S))
          o == [op |-> "createsf", R |-> R, F |-> F, S |-> S]
      IN /\ hist' = IF r.abort THEN hist ELSE Commit(r)
-        /\ sealed' = SealedNext(sealed, disk, IF r.abort THEN {} ELSE DOMAIN r.gens, o, r.exit, IF r.abort THEN hist ELSE Commit(r))
+        /\ sealed' = SealedNext(sealed, disk, IF r.abort THEN {} ELSE DOMAIN r.gens, o, r.exit, IF r.abort THEN hist ELSE Commit(r), {})
         /\ Observe(o, [exit |-> r.exit, internal |-> r.abort, missing |-> {},
                        mismatch |-> r.mismatch, new |-> {}, eff |-> r.eff], {})
         /\ Log(o)
